@@ -1,4 +1,5 @@
 ---- MODULE MCPoison ----
 EXTENDS Poison
 H1 == [a \in {"a1", "a2", "a3", "a4"} |-> IF a = "a1" THEN "cancel" ELSE IF a = "a2" THEN "normal" ELSE IF a = "a3" THEN "panic_before" ELSE "panic"]
+H2 == [a \in {"a1", "a2", "a3"} |-> IF a = "a1" THEN "pending_panic" ELSE IF a = "a2" THEN "normal" ELSE "cancel"]
 ====
